@@ -167,7 +167,8 @@ ADDED = {
     'C03': ' Also (D5): for movs/cmps/lods a segment override is printed (operand elision of __str__ evaluated) and turned back into the prefix by normalize_args (evaluated). D7: every '
            'mnemonic list by which _dis rejects or sizes an operand form is consulted by the same branch of the assembler; D8: x87 st(i) rows pass check_size_modif (evaluated) with the size '
            'the parser gives st(i) and agree with the implicit-operand lists; D3: every renamed row copy the decoder uses is a name the assembler finds. '
-           'D9: both assembler entry points type the immediates before candidates are selected (shared with C19.D6).',
+           'D9: both assembler entry points type the immediates before candidates are selected (shared with C19.D6). '
+           'D10: brackets around a sized operand keep its PTR size (grammar actions evaluated).',
     'C04': ' Also (D7): CF and OF of mul/imul are computed from the double-width product (the high half; for the signed forms compared with the sign extension of the low half), decided on '
            'the lifted templates of every operand form; (D8) aaa/aas/daa/das: the lifted assignments evaluated on every al x AF x CF x 5 values of ah equal the SDM pseudo-code. '
            'D9: push/pop through esp use the value of esp IA-32 prescribes (addresses of the lifted templates evaluated). D10-D13: the lifted assignments of the shifts and rotates are evaluated '
@@ -194,18 +195,21 @@ ADDED = {
     'C09': ' Also (D6): a string instruction whose Intel name is an SSE mnemonic (movsd/cmpsd) is not rendered under that name in AT&T syntax. D8: operand order (reversed except bound/enter) '
            'agrees between the AT&T branch of __str__ and mnemo_from_att, both evaluated; D9: memory forms rendered under a suffix-less AT&T mnemonic pass the size check of their row after '
            'mnemo_from_att, normalize_args and the operand completion of asm_candidates (all evaluated). '
-           'D10: arg_set_numpy_imm types an immediate with the operand size (evaluated).',
+           'D10: arg_set_numpy_imm types an immediate with the operand size (evaluated). '
+           'D11: rendering does not change the instruction object (shared with C12.D11).',
     'C10': ' Also (D4/D5): a decode that finds no instruction restores the stream offset; mnemo_from_att, evaluated on every mnemonic-like name (Intel names, AT&T table entries, +/- suffix '
            'letters) x operand shape, returns or raises ValueError; constant operand indices of __str__ are reachable only with enough operands (string-instruction operand counts and '
            'row-dependent guards evaluated); dictionary displays subscripted in the assembler have table-derived keys that are always present, or a membership test. '
            'D6: every operand fetch reads the number of bytes its mode prescribes (shared with C01.D3). '
            'D7: arg_set_numpy_imm is evaluated on every pair of operand-size tokens (no TypeError/KeyError); D8: dict_mul, evaluated on register x constant and on chains of factors, builds no value whose size grows with the constant. '
            'D9: decoder, undefined-form test and renderer select the same mandatory prefix from any prefix list.',
+    'C11': ' Also (D6): a semantic function returns a list built in the call (shared with C12.D12).',
     'C12': ' Also (D2/D6): every method of the evaluator class counts as an entry point whose defaults callers omit (dict-dispatch callees resolved); sys.path / sys.modules replaced inside a '
            'function are restored in a finally. '
            'D7: no function in the API modules mutates in place a module-level table, or a local bound to one (a lifter reversing the shared register list). '
            'D8: process-wide loggers are configured once; D9: state a token rule keeps on a shared lexer is reset per parse. '
-           'D7 also covers the tables of a module-level instance (x86mndb): run-time methods do not change them. D10: copy() is a deep copy.',
+           'D7 also covers the tables of a module-level instance (x86mndb): run-time methods do not change them. D10: copy() is a deep copy. '
+           'D11: __str__ and the flow-metadata methods are read-only; D12: semantic functions return lists built per call.',
     'C13': ' Also (D6): visit() of every expression class rebuilds the node when any child changed, segment selector of ExprMem included (shared with C15.D2). '
            'D7: constants have one (unsigned) representation wherever they stand. '
            'D1 demands that sub-expression fields enter the ordering key through key_expr and that the per-piece key of a concatenation is complete; D8: copy() is a deep copy.',
@@ -221,7 +225,8 @@ ADDED = {
     'C16': ' test_set is evaluated on its five cases (success returns the bindings); the class dispatch of MatchExpr fails, never crashes, on classes without a branch.',
     'C18': ' Also (D7/D8): the render -> assemble half of the fixpoint is decided by evaluating the class methods themselves (getname/args2str/__str__, the tokeniser, check_mnemo of every '
            'class, parse_opts/str2name/parse_args, field parse/bin): exhaustively over BO x BI x AA x LK for bc/bclr/bcctr, and on boundary field vectors x every extended opcode for every '
-           'other class; the text must be accepted by exactly its own class and every field must come back.',
+           'other class; the text must be accepted by exactly its own class and every field must come back. '
+           'D9: name tables read back with .index() hold no name twice.',
     'C19': ' Also (D4): both parsers give a shared register name the same operand size; every condition-code alias (cmovcc/setcc) is read back from AT&T syntax as itself with and without '
            'size suffix. '
            'D5: the operand-size detection gives the same mode for Intel- and AT&T-parsed operands. '
